@@ -534,19 +534,33 @@ func c10ServerRequests(jsonResp bool) vs.Verdict {
 // request travelled - the call's own exchange (the standalone stream in JSON-response mode) - so
 // that it reaches the client whether or not a standalone stream is attached, and must name the
 // abandoned request.
+// outerCancelled: it is not the handler that abandons its nested request; the client cancels the
+// outer tools/call (notifications/cancelled for it, and it abandons the call's HTTP exchange), the
+// handler's context ends and takes the nested request with it.  The notice for the nested request
+// must still reach the client - its sampling handler is still running - and the only way left is the
+// standalone stream.
 func c10UpcallCancel(prefix string, jsonResp, standaloneAttached bool) vs.Verdict {
+	return c10UpcallCancelBy(prefix, jsonResp, standaloneAttached, false)
+}
+
+func c10UpcallCancelBy(prefix string, jsonResp, standaloneAttached, outerCancelled bool) vs.Verdict {
 	f := &e1Fail{prefix: prefix}
 	ctx := context.Background()
 	ctl := vs.NewController()
 	abandon := ctl.Gate("abandon-upcall")
 	finish := ctl.Gate("finish-call")
+	cancelOuter := func() {}
 	vs.Quiet(true)
 	s := NewServer(&Implementation{Name: "srv", Version: "1"}, &ServerOptions{Logger: quietLogger})
 	AddTool(s, &Tool{Name: "ask"}, func(ctx context.Context, r *CallToolRequest, in c10Args) (*CallToolResult, any, error) {
 		cctx, cancel := context.WithCancel(ctx)
 		vs.Go(func() {
 			abandon.Wait()
-			cancel()
+			if outerCancelled {
+				cancelOuter()
+			} else {
+				cancel()
+			}
 		})
 		_, err := r.Session.CreateMessage(cctx, &CreateMessageParams{SystemPrompt: in.Tag, MaxTokens: 1, Messages: []*SamplingMessage{}})
 		vs.Event("upcall returned: %v", err != nil)
@@ -582,13 +596,23 @@ func c10UpcallCancel(prefix string, jsonResp, standaloneAttached bool) vs.Verdic
 	vs.Quiet(false)
 	rec := httptest.NewRecorder()
 	done := make(chan struct{})
+	octx, ocancel := context.WithCancel(ctx)
+	cancelOuter = func() {
+		// the client gives up on the outer call: it says so and abandons the exchange
+		vs.Event("client cancels the outer call")
+		h.ServeHTTP(httptest.NewRecorder(), mk("POST", sid, `{"jsonrpc":"2.0","method":"notifications/cancelled","params":{"requestId":1}}`))
+		ocancel()
+	}
 	vs.Go(func() {
-		h.ServeHTTP(rec, mk("POST", sid, `{"jsonrpc":"2.0","id":1,"method":"tools/call","params":{"name":"ask","arguments":{"tag":"A"}}}`))
+		h.ServeHTTP(rec, mk("POST", sid, `{"jsonrpc":"2.0","id":1,"method":"tools/call","params":{"name":"ask","arguments":{"tag":"A"}}}`).WithContext(octx))
 		close(done)
 	})
 	// the controller opens "abandon-upcall" once the handler waits for the client's reply, then
 	// "finish-call" once the cancellation notice has gone out
 	<-done
+	if outerCancelled {
+		vs.WaitIdle() // the exchange is over at once; give the notice for the nested request time to travel
+	}
 	ctl.Stop()
 	vs.Quiet(true)
 	gcancel()
@@ -623,6 +647,10 @@ func c10UpcallCancel(prefix string, jsonResp, standaloneAttached bool) vs.Verdic
 	if jsonResp {
 		want = "standalone"
 	}
+	wantNotice := want
+	if outerCancelled {
+		wantNotice = "standalone" // the call's exchange is gone
+	}
 	var reqID any
 	nreq, ncan := 0, 0
 	for _, x := range hits {
@@ -640,7 +668,7 @@ func c10UpcallCancel(prefix string, jsonResp, standaloneAttached bool) vs.Verdic
 			continue
 		}
 		ncan++
-		if x.where != want {
+		if x.where != wantNotice && !(outerCancelled && x.where == want) {
 			f.failf("cancel-notice-on-foreign-stream", "the handler abandoned its sampling request: notifications/cancelled travelled on %s, the request it cancels travelled on %s (standalone stream attached: %v)", x.where, want, standaloneAttached)
 		}
 		if fmt.Sprint(x.id) != fmt.Sprint(reqID) {
@@ -648,8 +676,11 @@ func c10UpcallCancel(prefix string, jsonResp, standaloneAttached bool) vs.Verdic
 		}
 	}
 	reachable := !jsonResp || standaloneAttached // in JSON mode without a standalone stream the request itself cannot be delivered
+	if outerCancelled {
+		reachable = standaloneAttached // the call's exchange is gone: only the standalone stream is left
+	}
 	if reachable && nreq == 1 && ncan != 1 {
-		f.failf("cancel-notice-lost", "the handler abandoned its sampling request but %d notifications/cancelled reached the client (standalone stream attached: %v, json mode: %v)", ncan, standaloneAttached, jsonResp)
+		f.failf("cancel-notice-lost", "the handler abandoned its sampling request but %d notifications/cancelled reached the client (standalone stream attached: %v, json mode: %v); call exchange: %q; standalone stream: %q", ncan, standaloneAttached, jsonResp, rec.Body.String(), standalone.Body.String())
 	}
 	return f.verdict(fmt.Sprintf("requests=%d cancelled=%d", nreq, ncan))
 }
